@@ -84,6 +84,11 @@ claim("C13", "value-flow rules on the per-item goroutine (captured index/item id
       "that the step reports error exactly when the error map is non-empty with index-keyed messages and results, that every item is validated before hand-over, and that shared result variables are locked / read after Wait (C13.R1-R5, with C08.R5). "
       "Non-interference between concurrent item runs and the run-time concurrency high-water mark are not decided.", NOTE)
 
+claim("C14", "type-based effect rule (writes into prepared-state values) with a positive control, freshness classification of the run state literal, who-may-write table for annotations",
+      "Decides that no run-path function writes (through field/element/map projections) into a value of a prepared-state type, that every field of the per-run state is fresh / constant / a read-only prepared field with the DAG cloned, "
+      "that no mutating graph method is applied to the prepared DAG, and that expression annotations and node data are written only by tabled prepare functions (C14.R1-R3); thorough: pluginsdk schema methods do not write their receiver (R4). "
+      "Equality of results of repeated/overlapping runs is not decided.", NOTE)
+
 ALL = ["C%02d" % i for i in range(1, 21)]
 for pid in ALL:
     if pid not in P:
